@@ -179,7 +179,11 @@ def c04(ctx, node, mname, meta=None, model_rm=None):
         same = False
         if ok_f:
             try:
-                same = penman.parse(s).node == T.norm_tree(node) or penman.parse(s).node == node
+                # (the reference parser decides whether the text says what the tree says: the library's
+                #  own parser is one of the things under test)
+                from pmon.ref import lexer as _R
+                rn = _R.ref_parse(s)[0]
+                same = rn == T.norm_tree(node) or rn == node
             except Exception:
                 same = False
         if same:
@@ -320,7 +324,8 @@ def c14(ctx, node, mname):
     if form:
         try:
             s = penman.format(Tree(node))
-            if penman.parse(s).node == T.norm_tree(node):
+            from pmon.ref import lexer as _R
+            if _R.ref_parse(s)[0] == T.norm_tree(node):
                 f = [None,
                      lambda: penman.decode(s, model=model),
                      lambda: penman.PENMANCodec(model=model).decode(s),
